@@ -117,3 +117,61 @@ def exhaustive_size_histories(lim, naming, cap, alphabet, maxlen):
                 rec(prefix + [a])
     rec([])
     return out
+
+
+CLEANUPS = ["l0", "l1", "l2", "l3", "g0", "g1", "g2", "b0.1", "b1.1", "b2.1", "b1.0", "b0.0"]
+
+
+def gen_runs(rng, tier, cleanups=("n",), namings=None, sfxs=(b"log",), bg=False, preseed=0.0, max_runs=3, crits=None, vary_append=True):
+    """several runs of a writer on one file specification: B .. S SN B .. S SN"""
+    naming = rng.choice(namings or NAMINGS)
+    lim = rng.choice([0, 4, 10, 25])
+    crit = rng.choice(crits or ["s%d" % lim, "s%d" % lim, "as", "xm%d" % lim])
+    cleanup = rng.choice(cleanups)
+    base = rng.choice([b"a", b"app", b""])
+    disc = rng.choice([None, None, b"d1"])
+    sfx = rng.choice(sfxs)
+    if not base and disc is None:
+        base = b"a"
+    append0 = rng.random() < 0.5
+    ops = []
+    t0 = T0 - rng.choice([0, 0, 1, 30, 86000])
+    rec_no = 0
+    cfg0 = Cfg(base=base, disc=disc, sfx=sfx, crit=crit, naming=naming, cleanup=cleanup)
+    if rng.random() < preseed:
+        # a directory as an earlier run (or a crash) may have left it
+        kind = rng.choice(["gz-only", "gap", "no-current", "plain"])
+        idxs = {"gz-only": [3, 7], "gap": [0, 2, 5], "no-current": [0, 1], "plain": [0]}[kind]
+        for i in idxs:
+            if naming in ("num", "numd"):
+                nm = cfg0.name(b"r%05d" % i)
+            else:
+                continue
+            if kind == "gz-only" or (kind == "gap" and i == 0 and cleanup[0] in "gb"):
+                ops.append("XC:%s:1:%s" % (hx(nm + b".gz"), hx(b"old%d\n" % i)))
+            else:
+                ops.append("XC:%s:0:%s" % (hx(nm), hx(b"old%d\n" % i)))
+        if kind != "no-current" and naming == "num" and rng.random() < 0.5:
+            ops.append("XC:%s:0:%s" % (hx(cfg0.name(b"rCURRENT")), hx(b"cur\n")))
+        if ops:
+            ops.append("SN")
+    for run in range(rng.randint(1, max_runs)):
+        cfg = Cfg(base=base, disc=disc, sfx=sfx, crit=crit, naming=naming, cleanup=cleanup,
+                  append=(rng.random() < 0.5) if vary_append else append0, cap=rng.choice([None, None, 6, 32]),
+                  bg=bg and rng.random() < 0.5)
+        ops.append("B:" + cfg.token())
+        for _ in range(rng.randint(0, 6 if tier == "quick" else 10)):
+            r = rng.random()
+            if r < 0.6:
+                ops.append("W:" + hx(b"%c%d\n" % (65 + rec_no % 26, rec_no)))
+                rec_no += 1
+            elif r < 0.75:
+                ops.append("T")
+            elif r < 0.85:
+                ops.append("K:%d" % rng.choice([1, 1, 2, 60]))
+            else:
+                ops += ["F", "SN"]
+        ops += ["S", "SN"]
+        if rng.random() < 0.5:
+            ops.append("K:%d" % rng.choice([1, 1, 5, 3600]))
+    return "flw %d 0 ; %s" % (t0, " ".join(ops))
